@@ -3136,7 +3136,7 @@ func mutableGlobalReads(c *core.Ctx, rule string) {
 }
 
 func init() {
-	for _, pr := range [][2]string{{"C10", "R10q"}, {"C13", "R13j"}, {"C15", "R15o"}} {
+	for _, pr := range [][2]string{{"C10", "R10q"}, {"C13", "R13j"}, {"C15", "R15o"}, {"C14", "R14k"}, {"C20", "R20l"}} {
 		pr := pr
 		wrapRun(pr[0], func(c *core.Ctx) {
 			if c.CountRule(pr[1]) == 0 {
